@@ -41,6 +41,9 @@ def run(ctx):
     ctx.rule(rule_zero_crossings, 'C07.R2')
     ctx.rule(rule_schedule, 'C07.R3')
     ctx.rule(rule_amplitude, 'C07.R4')
+    ctx.rule(rule_phase_count, 'C07.R2')
+    ctx.rule(rule_numeric_first_frequency, 'C07.R2')
+    ctx.rule(rule_ladder_selection, 'C07.R2')
     # the mask-frequency estimate and the masked extractions run with the caller's options: the first-IMF estimate is
     # the masked sift's own first extraction only if it sees the same extrema / envelope options
     from .c06 import rule_carrier_flow
@@ -430,3 +433,135 @@ def rule_amplitude(ctx, rid):
         ctx.passed(rid, fi, c)
     else:
         ctx.violation(rid, fi, c, 'the mask does not vanish with amp = 0')
+
+
+def rule_phase_count(ctx, rid):
+    """'the requested number of mask phases': every masked extraction dispatched by mask_sift receives the caller's
+    nphases (a dropped keyword silently falls back to the default of get_next_imf_mask), and inside the extraction the
+    number of masks built, of jobs dispatched and of results averaged is that same nphases."""
+    P = ctx.P
+    ms = P.func('emd.sift.mask_sift')
+    recs = []
+
+    def hook(ca, bound, star, st, e):
+        if ca.dotted == GNIM:
+            recs.append((bound, e))
+        return None
+    Evaluator(P, callee_hook=hook).run(ms)
+    c = 'every masked extraction is dispatched with the requested number of phases'
+    if not recs:
+        ctx.undecided(rid, ms, c, 'no call of get_next_imf_mask found')
+    else:
+        bad = [(b, e) for b, e in recs if b.get('nphases') != S('nphases')]
+        if bad:
+            b, e = bad[0]
+            ctx.violation(rid, ms, c, 'get_next_imf_mask is called with nphases=%s: the requested number of phases is '
+                          'replaced by the default of the extraction routine' % (show(b['nphases'])[:30] if 'nphases' in b else '<default>'),
+                          node=e)
+        else:
+            ctx.passed(rid, ms, c, '%d call state(s)' % len(recs))
+
+
+def rule_numeric_first_frequency(ctx, rid):
+    """A first mask frequency given as a number in (0, 0.5) is used as it is: get_mask_freqs folded on the literals
+    0.01, 0.1, 0.25, 0.49 returns that literal on every path (no estimate from the data, no unbound result)."""
+    P = ctx.P
+    fi = P.func('emd.sift.get_mask_freqs')
+    c = 'a numeric first mask frequency 0 < x < 0.5 is returned unchanged'
+    bad = None
+    n = 0
+    for v in (0.01, 0.1, 0.25, 0.49):
+        for e in Evaluator(P).run(fi, context={'first_mask_mode': v}):
+            ctx.paths += 1
+            n += 1
+            if e.kind != 'return':
+                bad = 'first_mask_mode=%s: %s %s' % (v, e.kind, show(e.value)[:60])
+            elif e.value != C(v):
+                if e.value[0] == 's' and str(e.value[1]).startswith('global:'):
+                    bad = 'first_mask_mode=%s: the result variable is never assigned (UnboundLocalError)' % v
+                else:
+                    bad = 'first_mask_mode=%s returns %s' % (v, show(e.value)[:60])
+            if bad:
+                break
+        if bad:
+            break
+    if bad:
+        ctx.violation(rid, fi, c, bad)
+    elif n == 0:
+        ctx.undecided(rid, fi, c, 'no path')
+    else:
+        ctx.passed(rid, fi, c, '4 literals, %d paths' % n)
+    # the data-driven modes produce a value on every path (a result variable that is read before any assignment is an
+    # UnboundLocalError for every input), computed from an unmasked first extraction of the signal
+    c2 = "the data-driven modes 'zc' and 'if' deliver an estimate computed from the first unmasked IMF of the signal"
+    bad = None
+    n = 0
+    for mode in ('zc', 'if'):
+        for e in Evaluator(P).run(fi, context={'first_mask_mode': mode}):
+            ctx.paths += 1
+            if e.kind != 'return':
+                bad = "first_mask_mode='%s': %s %s" % (mode, e.kind, show(e.value)[:60])
+                break
+            n += 1
+            unb = [t for t in subterms(e.value) if t[0] == 's' and str(t[1]).startswith('global:')]
+            if unb:
+                bad = "first_mask_mode='%s': %s is read but never assigned on this path (NameError for every input)" % (
+                    mode, unb[0][1].split(':', 1)[1])
+                break
+            gni = [t for t in subterms(e.value) if t[0] == 'call' and t[1] == 'emd.sift.get_next_imf']
+            if not gni or dict(gni[0][3]).get('X') != S('X'):
+                bad = "first_mask_mode='%s': the estimate %s is not computed from get_next_imf(X, ...)" % (mode, show(e.value)[:70])
+                break
+        if bad:
+            break
+    if bad:
+        ctx.violation(rid, fi, c2, bad)
+    elif n == 0:
+        ctx.undecided(rid, fi, c2, 'no path')
+    else:
+        ctx.passed(rid, fi, c2, '%d paths' % n)
+
+
+def rule_ladder_selection(ctx, rid):
+    """mask_sift folded on mask_freqs in {'zc', 'if', 0.25}: no path raises before the layer loop and every masked
+    extraction takes its frequency from the automatic ladder built on get_mask_freqs(X, that value, ...)."""
+    P = ctx.P
+    ms = P.func('emd.sift.mask_sift')
+    c = "for mask_freqs 'zc', 'if' or a number the frequencies are the automatic ladder on get_mask_freqs(X, mask_freqs)"
+    bad = None
+    n = 0
+    for v in ('zc', 'if', 0.25):
+        recs = []
+
+        def hook(ca, bound, star, st, e):
+            if ca.dotted == GNIM:
+                recs.append(bound)
+            return None
+        exits = Evaluator(P, callee_hook=hook).run(ms, context={'mask_freqs': v, 'mask_amp_mode': 'ratio_sig', 'ret_mask_freq': True})
+        ctx.paths += len(exits)
+        for e in exits:
+            if e.kind == 'raise' and not recs:
+                bad = 'mask_freqs=%r: %s before any extraction' % (v, show(e.value)[:70])
+            if e.kind == 'raise' and e.value[0] == 'call' and e.value[1] in ('builtins.TypeError', 'builtins.NameError'):
+                bad = 'mask_freqs=%r raises %s' % (v, show(e.value)[:70])
+        if not recs and not bad:
+            bad = 'mask_freqs=%r: no masked extraction is reached' % (v,)
+        for bound in recs:
+            n += 1
+            z = bound.get('z', NONE)
+            gm = [t for t in subterms(z) if t[0] == 'call' and t[1] == 'emd.sift.get_mask_freqs']
+            if not gm:
+                bad = 'mask_freqs=%r: the mask frequency %s does not come from get_mask_freqs' % (v, show(z)[:60])
+                break
+            kw = dict(gm[0][3])
+            if kw.get('first_mask_mode') != C(v) or kw.get('X', NONE)[0] == 'c':
+                bad = 'mask_freqs=%r: get_mask_freqs is called with first_mask_mode=%s' % (v, show(kw.get('first_mask_mode', NONE))[:30])
+                break
+        if bad:
+            break
+    if bad:
+        ctx.violation(rid, ms, c, bad)
+    elif n == 0:
+        ctx.undecided(rid, ms, c, 'no extraction call evaluated')
+    else:
+        ctx.passed(rid, ms, c, '%d call states' % n)
